@@ -1348,13 +1348,15 @@ def _model_to_sbml(
         _sbase_notes_dict(gp, cobra_gene.notes)
 
     # Objective
-    objective: "libsbml.Objective" = model_fbc.createObjective()
-    objective.setId("obj")
-    objective.setType(SHORT_LONG_DIRECTION[cobra_model.objective.direction])
-    model_fbc.setActiveObjectiveId("obj")
+    reaction_coefficients = linear_reaction_coefficients(cobra_model)
+    # an <objective> without flux objectives is not valid SBML
+    if reaction_coefficients:
+        objective: "libsbml.Objective" = model_fbc.createObjective()
+        objective.setId("obj")
+        objective.setType(SHORT_LONG_DIRECTION[cobra_model.objective.direction])
+        model_fbc.setActiveObjectiveId("obj")
 
     # Reactions
-    reaction_coefficients = linear_reaction_coefficients(cobra_model)
     for cobra_reaction in cobra_model.reactions:
         rid = cobra_reaction.id
         if f_replace and F_REACTION_REV in f_replace:
